@@ -43,6 +43,21 @@ class HistDirfile(gen.Dirfile):
             self.fields.append(dict(kind='phase', name="p%d" % i, text="p%d PHASE %s %d" % (i, inp['name'], sh),
                                     deff="phase p%d %s %d" % (i, inp['name'], sh), depth=1 + inp['depth'],
                                     inputs=[inp['name']], shift=sh))
+        # derived fields whose SECOND input is INDEX (it has no file position of its own: its I/O pointer is wherever the
+        # other input is — src/iopos.c passes the first input's position down as a hint)
+        # (only at one sample per frame: INDEX has that rate, and reads of multi-rate fields that do not start on a frame
+        # boundary are the separate known finding 5.1, which these histories must not mix in)
+        if spf == 1 and rng.random() < 0.8:
+            raw0 = [f for f in self.fields if f['kind'] == 'raw'][0]
+            for nm, knd in rng.sample([("xm", "multiply"), ("xd", "divide"), ("xw", "window")], rng.randint(1, 2)):
+                if knd == "window":
+                    thr = float(rng.randint(2, 30))
+                    txt = "%s WINDOW %s INDEX GE %s" % (nm, raw0['name'], gen.fnum(thr))
+                    d = "window %s %s INDEX ge %s" % (nm, raw0['name'], gen.f64hex(thr))
+                else:
+                    txt = "%s %s %s INDEX" % (nm, knd.upper(), raw0['name'])
+                    d = "%s %s %s INDEX" % (knd, nm, raw0['name'])
+                self.fields.append(dict(kind=knd, name=nm, text=txt, deff=d, depth=1, inputs=[raw0['name']]))
         self.mplex = []
         if mplex:
             for i in range(rng.randint(0, 2)):
